@@ -356,7 +356,7 @@ var skTargets = []skTarget{
 	{"agent/utils/utils.go", "streamingResponseWriter", "Close", "utils_srw_Close", []string{"w.WriteHeader", "w.bodyWriter.Close"}, []string{"w.trailer"}},
 	{"agent/utils/utils.go", "", "ShutdownSignalChan", "utils_ShutdownSignalChan", []string{"signal.Notify"}, nil},
 	// sessions
-	{"agent/sessions/sessions.go", "Cache", "cachedCookieJar", "sessions_cachedCookieJar", []string{"c.cache.Get", "c.addJarToCache", "cookiejar.New"}, []string{"c.cache"}},
+	{"agent/sessions/sessions.go", "Cache", "cachedCookieJar", "sessions_cachedCookieJar", []string{"c.cache.Get", "c.cache.Add", "c.addJarToCache", "cookiejar.New"}, []string{"c.cache"}},
 	{"agent/sessions/sessions.go", "Cache", "addJarToCache", "sessions_addJarToCache", []string{"c.cache.Add"}, []string{"c.cache"}},
 	// websockets
 	{"agent/websockets/connection.go", "", "NewConnection", "websockets_NewConnection", []string{"serverConn.ReadMessage", "serverConn.WriteMessage", "serverConn.Close", "cancel", "websocket.DefaultDialer.Dial"}, nil},
